@@ -59,19 +59,31 @@ def pause_py(jit, base, mx, n, r):
 
 
 # ------------------------------------------------------------------ RetryWithCtx scenarios
-def scn(api, retries, keep, outs, kind="none", k=0, p=0, backoff=1, mx=1, jit=0, pool=False):
+def scn(api, retries, keep, outs, kind="none", k=0, p=0, backoff=1, mx=1, jit=0, pool=False, flavour=""):
     return dict(type="run", api=api, retries=retries, keep=keep, outs=list(outs), kind=kind, k=k, p=p,
-                backoff=backoff, max=mx, jit=jit, pool=pool)
+                backoff=backoff, max=mx, jit=jit, pool=pool, flavour=flavour)
+
+
+def expand(outs):
+    """ "r*N" = N recoverable failures with ids 0..7 cycling (as the harness expands it)"""
+    out = []
+    for t in outs:
+        if t.startswith("r*"):
+            for _ in range(int(t[2:])):
+                out.append("r%d" % (len(out) % 8))
+        else:
+            out.append(t)
+    return out
 
 
 def go_req(s):
     return "%s %s %d %d %d %d %d %s %d %d %s" % (
         "prun" if s["pool"] else "run", s["api"], s["retries"], s["keep"], s["backoff"], s["max"], s["jit"],
-        s["kind"], s["k"], s["p"], " ".join(s["outs"]))
+        s["kind"] + ("/" + s["flavour"] if s.get("flavour") else ""), s["k"], s["p"], " ".join(s["outs"]))
 
 
 def model_req(s):
-    outs, kind, k = s["outs"], s["kind"], s["k"]
+    outs, kind, k = expand(s["outs"]), s["kind"], s["k"]
     if s["api"] == "retry":              # Retry marks every error recoverable
         outs = [("r" + o[1:]) if o[0] == "f" else o for o in outs]
     pre = {"precancel": "C", "predeadline": "D"}.get(kind, "-")
@@ -96,7 +108,7 @@ def model_req(s):
 def run_spec(s, ans):
     """the property, evaluated on what Go did (independently of the Coq model).
     returns list of (signature, text)"""
-    outs, kind, k, retries, keep = s["outs"], s["kind"], s["k"], s["retries"], s["keep"]
+    outs, kind, k, retries, keep = expand(s["outs"]), s["kind"], s["k"], s["retries"], s["keep"]
     if s["api"] == "retry":
         outs = [("r" + o[1:]) if o[0] == "f" else o for o in outs]
     f = ans.split()
@@ -110,6 +122,8 @@ def run_spec(s, ans):
     if len(f) < 2 or f[1] == "nonferror":
         return [("failure-not-ferror", "the failure returned is not an *FError: %s" % ans)]
     calls, status = int(f[0]), f[1]
+    if status == "more":
+        calls += 1                       # f was called beyond the script (the harness ends the call there)
     # expected
     exp_calls, exp_status, reason, ctx_stop = None, None, None, False
     if kind == "precancel":
@@ -122,7 +136,7 @@ def run_spec(s, ans):
         dl_elapsed = 0
         while True:
             if i >= len(outs):
-                exp_calls, exp_status = i, "more"; break
+                exp_calls, exp_status = i + 1, "more"; break
             o = outs[i]; i += 1
             if o == "o":
                 exp_calls, exp_status = i, "nil"; break
@@ -165,6 +179,8 @@ def run_spec(s, ans):
         if bits[TARGETS.index(reason)] != "1" and bits[TARGETS.index(alt)] != "1":
             bad.append(("reason-not-matched:" + ("user" if reason[0] == "u" else reason),
                         "errors.Is(failure, %s) is false although that is why it stopped" % reason))
+        if reason in ("canceled", "deadline") and len(bits) > 13 and bits[13] == "0":
+            bad.append(("reason-not-matched:ctx-err", "errors.Is(failure, ctx.Err()) is false although the context's end is why it stopped"))
         if int(f[4]) > max(1, keep):
             bad.append(("kept-too-many", "%d errors retained, KeepErrs=%d" % (int(f[4]), keep)))
     return bad
@@ -178,7 +194,7 @@ def same_run(go, model):
         return False
     if g[1] in ("nil", "more"):
         return True
-    return g[2:5] == m[2:5] and sorted(g[5:]) == sorted(m[5:])
+    return g[2] == m[2] and g[3][:13] == m[3][:13] and g[4] == m[4] and sorted(g[5:]) == sorted(m[5:])
 
 
 def sequences(maxlen):
@@ -199,6 +215,8 @@ def with_ids(t, mode):
 
 RETRIES = [-3, -1, 0, 1, 2, 3, 7]
 KEEPS = [-1, 0, 1, 2, 10]
+CANCEL_FLAVOURS = ["", "cause", "child", "childcause", "value", "detached", "timeoutchild", "own"]
+DEADLINE_FLAVOURS = ["", "timeout", "deadlinecause", "timeoutcause", "child"]
 W = 40 * MS          # the wait in which a timed context event is placed
 DELTA = 25 * MS      # distance kept between a deadline and every pause boundary of a deadline sweep
 HOUR = 3600 * 10 ** 9
@@ -266,12 +284,31 @@ def build_cases(tier, seed, rnd):
             cases.append(scn("ctx", r, 1, with_ids(t, "distinct"), backoff=0, mx=0))
             cases.append(scn("ctx", r, 1, with_ids(t, "distinct"), backoff=-5, mx=-7, jit=1))
             cases.append(scn("ctx", r, 1, with_ids(t, "distinct"), backoff=3, mx=50, jit=1))
-    # --- context already ended on entry
-    for kind in ("precancel", "predeadline"):
-        for t in (("o",), ("r", "o"), ("f",)):
-            for r in RETRIES:
-                for kp in (0, 2):
-                    cases.append(scn("ctx", r, kp, with_ids(t, "distinct"), kind=kind))
+    # --- context already ended on entry, over the kinds of context Go offers
+    for kind, flavours in (("precancel", CANCEL_FLAVOURS), ("predeadline", DEADLINE_FLAVOURS)):
+        for fl in flavours:
+            for t in (("o",), ("r", "o"), ("f",)):
+                for r in RETRIES:
+                    for kp in (0, 2):
+                        cases.append(scn("ctx", r, kp, with_ids(t, "distinct"), kind=kind, flavour=fl))
+    # --- retry limits beyond every small constant (1 ns pauses): the limit must be reached exactly, success / an unrecoverable
+    #     error anywhere up to the last allowed run must end the call there
+    big = [62, 63, 64, 65, 66, 100, 1000, 5000] + ([20000] if thorough else [])
+    for R in big:
+        for kp in ((0, 2, 100) if R <= 5000 else (2,)):
+            for (b, m, j) in (((1, 1, 0), (0, 1, 0), (-3, 1, 1)) if R <= 1000 else ((1, 1, 0),)):
+                cases.append(scn("ctx", R, kp, ["r*%d" % (R + 2)], backoff=b, mx=m, jit=j))      # stops at R by the limit
+                cases.append(scn("ctx", R, kp, ["r*%d" % (R - 1), "o"], backoff=b, mx=m, jit=j))   # succeeds in the last allowed run
+                cases.append(scn("ctx", R, kp, ["r*%d" % (R - 1), "f3", "o"], backoff=b, mx=m, jit=j))
+        if R <= 1000:
+            cases.append(scn("some", R, 2, ["r*%d" % (R + 2)]))
+            cases.append(scn("retry", R, 2, ["r*%d" % (R + 2)]))
+            cases.append(scn("ctx", -1, 2, ["r*%d" % R]))                                          # Forever: still going after R runs
+    for pos in (61, 62, 63, 64, 65, 66, 67):
+        for R in (63, 64, 65, 66, 100, -1):
+            for last in ("o", "f5"):
+                cases.append(scn("ctx", R, 2, ["r*%d" % (pos - 1), last, "r1", "o"]))
+            cases.append(scn("ctx", R, 3, ["r*%d" % pos, "r1", "o"], kind="inF", k=pos, backoff=1, mx=1))  # cancelled inside run pos
     # --- context events at run/wait k (timed; run concurrently)
     for k in range(1, 6):
         b = W // 2 ** (k - 1)
@@ -283,6 +320,18 @@ def build_cases(tier, seed, rnd):
                 outs = with_ids(("r",) * k + ("r", "o"), "distinct")
                 cases.append(scn("ctx", r, kp, outs, kind="midwait", k=k, p=W // 4, backoff=b, mx=0, pool=True))
                 cases.append(scn("ctx", r, kp, outs, kind="midwaitDL", k=k, p=W // 4, backoff=b, mx=0, pool=True))
+        # the same context events over the kinds of context Go offers (the reason must match ctx.Err() in each)
+        for r in ((-1, 2, 7) if not thorough else RETRIES):
+            outs = with_ids(("r",) * k + ("r", "o"), "distinct")
+            for fl in CANCEL_FLAVOURS[1:]:
+                cases.append(scn("ctx", r, 2, outs, kind="inF", k=k, backoff=b, mx=0, pool=True, flavour=fl))
+                cases.append(scn("ctx", r, 2, outs, kind="midwait", k=k, p=W // 4, backoff=b, mx=0, pool=True, flavour=fl))
+            for fl in ("hidden-deadline", "hidden-timeout", "hidden-timeoutcause", "hidden-deadlinecause", "hidden-child"):
+                # a real deadline in the middle of wait k which Deadline() does not report
+                cases.append(scn("ctx", r, 2, outs, kind="midwaitDL", k=k, p=(W - b) + W // 4, backoff=b, mx=0, pool=True, flavour=fl))
+            for fl in DEADLINE_FLAVOURS[1:]:
+                cases.append(scn("ctx", r, 2, outs, kind="deadline", k=k, p=b * (2 ** (k - 1) - 1) + W // 2,
+                                 backoff=b, mx=0, pool=True, flavour=fl))
                 # deadline half way through wait k: every earlier pre-check passes with W/2 to spare
                 cases.append(scn("ctx", r, kp, outs, kind="deadline", k=k, p=b * (2 ** (k - 1) - 1) + W // 2,
                                  backoff=b, mx=0, pool=True))
@@ -456,10 +505,10 @@ def run(tier, seed, replay=None):
             for sig, text in sp:
                 res.violation(sig, "%s(retries=%d, KeepErrs=%d, outcomes=%s, ctx=%s@%d): %s; Go: %s" % (
                     {"ctx": "RetryWithCtx", "some": "RetrySome", "retry": "Retry"}[it["api"]], it["retries"], it["keep"],
-                    " ".join(it["outs"]), it["kind"], it["k"], text, g), rp)
+                    " ".join(it["outs"]), it["kind"] + ("/" + it["flavour"] if it.get("flavour") else ""), it["k"], text, g), rp)
             if not sp and not same_run(g, m):
                 res.violation("run-model-differs", "RetryWithCtx(retries=%d, KeepErrs=%d, outcomes=%s, ctx=%s@%d): Go %s, model %s" % (
-                    it["retries"], it["keep"], " ".join(it["outs"]), it["kind"], it["k"], g, m), rp, False)
+                    it["retries"], it["keep"], " ".join(it["outs"]), it["kind"] + ("/" + it["flavour"] if it.get("flavour") else ""), it["k"], g, m), rp, False)
             if len(it["outs"]) >= 2 and it["outs"][0] != "o":
                 nontriv.add(("run", it["api"], it["retries"], it["keep"], tuple(it["outs"]), it["kind"], it["k"], it["backoff"], it["jit"]))
             if it["kind"] == "dl" and it["backoff"] == 2 * HOUR and it["max"] == 2 * MS and it["retries"] == 3 and it["p"] in (HOUR, 100 * MS):
